@@ -11,6 +11,12 @@ TRUST_M = 'rustc MIR printer; z3/cvc5; model table of mirsym (glam componentwise
 TRUST_K = 'Kani 0.68 codegen and CBMC 6.11 (IEEE-754 model, CaDiCaL); stubs and assumptions listed in the evidence file'
 
 CHECKS = {
+    'C01': dict(cat='other', tech='symbolic execution of the MIR of cuboid, init, HalfSpace::new, clip_by_plane, the tetrahedral decomposition and VolumeIntegral with a symbolic clipping plane -> rational-function identities against a closed-form reference, decided by z3 (portfolio of two z3 versions); builder-loop and neighbour-pipeline obligations',
+                text='Bounded end-to-end claim, solver-decided over the reals: ONE clip of the initial cell of a concrete box by an arbitrary plane (symbolic normal and point; all normal components non-zero; no corner inside the float error band). On each of the 81 paths: exactly the corners on the negative side are removed, the new vertices lie on the plane, on their walls and inside the box (one per cut edge), and the computed volume equals the closed-form volume of box /\\ half-space (independent inclusion-exclusion reference). Hence for two generators anywhere in the box each cell is the nearest-generator region with the exact volume. Quick tier: removed-corner counts {0,1,2,6,7}; thorough: all counts and a second, non-cubic box. Further clips are covered only through their mechanisms (candidates clipped in distance order until farther than the safety radius; every search result reaches the builder). Centroids, face areas, several clips on symbolic vertices and the r-tree order are outside.',
+                note=TRUST_M, ref='DESIGN.md 7.4'),
+    'C02': dict(cat='other', tech='same single-clip encoding as C01 -> polynomial identities decided by z3: computed volume = closed form, closed forms of the two sides of the plane add up to the box volume, positivity; box normalisation obligations',
+                text='Bounded claim, solver-decided over the reals: for two generators (one clip of the initial cell by an arbitrary plane) the two computed cell volumes are the closed-form volumes of the two sides of the bisector, which add up to the box volume for every removed-corner pattern and sign pattern of the normal, and are positive (thorough tier). Unit thickness of unused axes: anchor/width normalised to -0.5/1 on both routes; periodic box tripled exactly on active axes. More than two generators, periodic sums and 1D/2D sums are outside.',
+                note=TRUST_M, ref='DESIGN.md 7.4'),
     'C10': dict(cat='other', tech='symbolic execution of the MIR of in_sphere_test_exact -> SMT (z3, cross-checked cvc5/z3-4.8); Kani/CBMC harnesses for the grid map',
                 text='Solver-decided, bounded: for all 15 coordinates in [0,2^52) the determinant computed by the real MIR equals the Leibniz lifted determinant, no i64 subtraction overflows, the sign tail returns sgn(D) for every integer D; circumsphere lemma over R; grid-map range/monotonicity bit-precisely by Kani within the stated box bounds. Not a proof outside those bounds.',
                 note=TRUST_M + '; ' + TRUST_K + '; big-integer crates implement Z exactly', ref='DESIGN.md 4 C10'),
@@ -65,8 +71,6 @@ CHECKS = {
 }
 
 NA = {
-    'C01': 'whole floating-point pipeline (rstar search + incremental clipping + tetrahedral integrals): symbolic execution of rstar alone exceeds 10 min on 3 points and a single cell with one symbolic coordinate reaches no verdict (DESIGN.md 2); its mechanisms are decided under C10, C16, C17, C18, C19',
-    'C02': 'global floating-point sum over the same whole pipeline; no local solver obligation implies it (DESIGN.md 4)',
     'C09': 'rayon work-stealing schedules: Kani/CBMC do not model threads and no encoding of rayon is within reach; the sequential build is what the harnesses analyse (DESIGN.md 4)',
 }
 
